@@ -12,11 +12,6 @@ Import ListNotations.
 Section Legacy.
 Context {T : Type}.
 Variable cast : dt -> dt -> T -> T.
-(* variant switch for the open finding pspace-array-dtype-argument: [false] =
-   ProductSpaceElement.__array__ takes no dtype (as found: TypeError when a
-   product-space element reaches a tensor leaf), [true] = it does (repaired:
-   the stacked array then makes the result grow, ValueError) *)
-Variable pv : bool.
 
 Inductive ptree := PLeaf (d : dt) (data : list T) | PNode (parts : list ptree).
 
@@ -146,7 +141,10 @@ Definition opvec (n : nat) (a : arg2) : res (list T) :=
   match a with
   | A2Scal c => Ok (repeat c n)
   | A2Tree (PLeaf _ y) => fit y
-  | A2Tree (PNode _) => Err (if pv then EValue else EType)
+  (* a product-space element reaching a tensor leaf: NumPy stacks it with
+     __array__(dtype) (accepted since /repo commit f3f904a) and the result would
+     have more axes than the leaf: ValueError *)
+  | A2Tree (PNode _) => Err EValue
   | A2Arr [] [c] => Ok (repeat c n)
   | A2Arr [k] y => if (k =? length y)%nat then fit y else Err EValue
   | A2Arr _ _ => Err EValue             (* more axes than the leaf: result would grow / cannot broadcast *)
